@@ -5,6 +5,7 @@ were repaired in /repo after the workspace recorded them as open)."""
 import json, sys, os
 
 FIXED = {
+    "C38:nul-short-matches-long-only": "dd77677",
     "C23:multi-starstar-duplicates": "7810ac0",
     "C23:hidden-dot-by-later-wildcard": "431e6a5",
     "C23:type-regular-symlink": "37233f0",
